@@ -45,6 +45,13 @@ html_entities = {
     0x203A:         "&rsaquo;", # single right-pointing angle quotation mark, it is proposed but not yet ISO standardized
     0x20AC:         "&euro;",   # euro sign, U+20AC NEW
 }
+# XML itself predefines only &quot; &amp; &lt; &gt; &apos; -- the HTML names above are undefined in an XML document
+xml_entities = {
+    0x22:           "&quot;",   # quotation mark
+    0x26:           "&amp;",    # ampersand
+    0x3C:           "&lt;",     # less-than sign
+    0x3E:           "&gt;",     # greater-than sign
+}
 # **********************************************************************************************************************
 class n0dict_(n0dict__):
     # *************************************************************************
@@ -126,7 +133,7 @@ class n0dict_(n0dict__):
                             if value.lstrip().upper().startswith("<![CDATA[") and value.rstrip().endswith("]]>"):
                                 result += f"\n{' '*(indent+inc_indent)}{value}\n{' '*indent}"
                             else:
-                                result += value.translate(html_entities)
+                                result += value.translate(xml_entities)
                             result += f"</{key}>"
                         else:
                             raise NotImplementedError(f"Export of attibtures ({key}) is not supported yet")
@@ -205,5 +212,6 @@ class n0dict_(n0dict__):
 __all__ = (
     'n0dict_',
     'html_entities',
+    'xml_entities',
 )
 ################################################################################
